@@ -28,7 +28,8 @@ abbrev Tree := List Hdr
 def hdrOf (t : Tree) (h : Nat) : Option Hdr := t.find? (fun b => b.hash == h)
 
 inductive Err where
-  | source      -- the source answered Err / something that does not validate against the requested hash
+  | source      -- BlockSourceErrorKind::Persistent: the source answered a persistent Err / something `Validate` refuses
+  | transient   -- BlockSourceErrorKind::Transient: the source answered a transient Err
   | genesis     -- poll.rs look_up_previous_header: "genesis block reached"
   | buildsOn    -- poll.rs check_builds_on failed
   | fuel        -- model artefact: walk did not terminate (unreachable on well-formed trees)
@@ -61,14 +62,25 @@ structure Source where
   hidden : Nat → Bool
   /-- `ChainPoller::network` is `Network::Bitcoin` (check_builds_on then enforces the difficulty rules) -/
   bitcoin : Bool := false
+  /-- which failing requests are `BlockSourceError::transient` (all other errors — persistent source errors,
+      everything `Validate` / `check_builds_on` refuse, "header not found" — are persistent) -/
+  transient : Req → Bool := fun _ => false
+
+/-- the `BlockSourceError` of a failing request -/
+def Source.err (s : Source) (r : Req) : Err := if s.transient r then .transient else .source
+
+/-- `BlockSourceError::kind() == Transient` -/
+def Err.isTransient : Err → Bool
+  | .transient => true
+  | _ => false
 
 /-- mirrors BlockSource::get_best_block (request `req`) -/
 def Source.getBestBlock (s : Source) (req : Nat) : Except Err Nat :=
-  if s.fails (.best req) then .error .source else .ok s.best
+  if s.fails (.best req) then .error (s.err (.best req)) else .ok s.best
 
 /-- mirrors BlockSource::get_header followed by `BlockHeaderData::validate(hash)` (request `req`) -/
 def Source.getHeader (s : Source) (req : Nat) (h : Nat) : Except Err Hdr :=
-  if s.fails (.header req h) then .error .source
+  if s.fails (.header req h) then .error (s.err (.header req h))
   else if s.hidden h then .error .source
   else match hdrOf s.tree h with
     | some b => .ok b
@@ -76,7 +88,7 @@ def Source.getHeader (s : Source) (req : Nat) (h : Nat) : Except Err Hdr :=
 
 /-- mirrors Poll::fetch_block = BlockSource::get_block followed by `BlockData::validate(hash)` -/
 def Source.getBlock (s : Source) (req : Nat) (b : Hdr) : Except Err Unit :=
-  if s.fails (.block req b.hash) then .error .source
+  if s.fails (.block req b.hash) then .error (s.err (.block req b.hash))
   else if s.hidden b.hash then .error .source
   else match hdrOf s.tree b.hash with
     | some _ => .ok ()
@@ -388,11 +400,15 @@ structure Adv where
   header : Nat → Nat → Option RawHdr
   block : Nat → Nat → Option RawBlk
   bitcoin : Bool := false
+  /-- the kind of the `Err` answered at request `k` (when the answer is `none`): transient or persistent -/
+  transient : Nat → Bool := fun _ => false
+
+def Adv.err (a : Adv) (k : Nat) : Err := if a.transient k then .transient else .source
 
 /-- BlockSource::get_header followed by the translated `BlockHeaderData::validate(hash)` (PoW, hash binding) -/
 def Adv.getHeader (a : Adv) (req h : Nat) : Except Err Hdr :=
   match a.header req h with
-  | none => .error .source
+  | none => .error (a.err req)
   | some raw => match validateHeader raw h with
     | none => .error .source
     | some b => .ok b
@@ -400,7 +416,7 @@ def Adv.getHeader (a : Adv) (req h : Nat) : Except Err Hdr :=
 /-- Poll::fetch_block: BlockSource::get_block followed by the translated `BlockData::validate(hash)` -/
 def Adv.getBlock (a : Adv) (req : Nat) (h : Nat) : Except Err Unit :=
   match a.block req h with
-  | none => .error .source
+  | none => .error (a.err req)
   | some raw => if validateBlock raw h then .ok () else .error .source
 
 /-- The adversary as a failure-scheduled source over the universe `t` of headers that exist (every
@@ -420,7 +436,25 @@ def Adv.toSource (a : Adv) (t : Tree) : Source :=
       | .block k h => (match a.getBlock k h with
           | .ok _ => (hdrOf t h).isNone
           | .error _ => true),
-    hidden := fun _ => false, bitcoin := a.bitcoin }
+    hidden := fun _ => false, bitcoin := a.bitcoin,
+    transient := fun r => match r with
+      | .best k => (a.best k).isNone && a.transient k
+      | .header k h => (a.header k h).isNone && a.transient k
+      | .block k h => (a.block k h).isNone && a.transient k }
+
+/-- the REAL `ChainPoller::look_up_previous_header` over an arbitrary source: genesis test, get_header +
+    `validate(prev_blockhash)`, then `check_builds_on` (all translated) — no reference to any tree -/
+def Adv.pollerPrev (a : Adv) (req : Nat) (h : Hdr) : Res Hdr :=
+  if isGenesisHeader h then .error (.genesis, req)
+  else match a.getHeader req h.parent with
+    | .error e => .error (e, req + 1)
+    | .ok p => if checkBuildsOn a.bitcoin h p then .ok (p, req + 1) else .error (.buildsOn, req + 1)
+
+/-- hashes are collision-free over the universe `t`: a PoW-valid raw header that hashes to the hash of a
+    header of `t` has that header's contents (prev_blockhash, bits, and therefore work) -/
+def Adv.CollisionFree (a : Adv) (t : Tree) : Prop :=
+  ∀ k h raw p0, a.header k h = some raw → raw.powOk = true → hdrOf t raw.hash = some p0 →
+    raw.parent = p0.parent ∧ raw.bits = p0.bits ∧ raw.bwork = p0.bwork
 
 /-- every header the Validate layer accepts from `a` is the universe's header for the requested hash
     (collision-free hashes + truthful height / chainwork claims) and every accepted block is known -/
